@@ -29,6 +29,10 @@ var c09SkipAllowed = map[string]string{
 var c09ProvenReaders = map[string]bool{storeT + "ReadTx": true, storeT + "ReadTxHeader": true, storeT + "ReadTxEntry": true, storeT + "readTx": true}
 
 func c09(c *Ctx) {
+	// a read that fails on altered data fails cleanly: no error return of the value-log accessors keeps a lock
+	// (a leaked lock turns the NEXT read of any value into a hang, which is neither an error nor the original content)
+	c.rulePairing("C09.5/read-path-lock-pairing", []string{"embedded/store"}, storeReturnsHolding)
+	c09EntryCountBounded(c, "C09.6/entry-count-bounded")
 	// ---- C09.1 must-validate ------------------------------------------------------------------------------------
 	r := "C09.1/must-validate"
 	bav := callTo("embedded/store.(*txDataReader).buildAndValidateHtree")
@@ -227,4 +231,32 @@ func c09(c *Ctx) {
 	c02TxReaderChain(c, "C09.3/txreader-chain")
 	c03Recovery(c)
 	_ = fmt.Sprint
+}
+
+// c09EntryCountBounded: the number of entries of a transaction is read from its (possibly damaged) header before any
+// hash is verified, and Tx.readFrom then fills that many slots of a holder sized for maxEntries. Whatever the header
+// version, readHeader hands a header out only after comparing the count with maxEntries.
+func c09EntryCountBounded(c *Ctx, r string) {
+	f := c.mustFn(r, "embedded/store.(*txDataReader).readHeader")
+	if f == nil {
+		return
+	}
+	isCheck := func(in ssa.Instruction) bool {
+		ifi, ok := in.(*ssa.If)
+		if !ok {
+			return false
+		}
+		a, _ := normCond(ifi.Cond)
+		return strings.Contains(a, "maxEntries")
+	}
+	if len(sites(f, isCheck)) == 0 {
+		c.fail(r, fnName(f)+":bound", c.pos(f.Pos()), "readHeader no longer compares the entry count with maxEntries")
+		return
+	}
+	q := &pathQ{fn: f, fromEntry: true, to: successReturn, via: isCheck}
+	if w := q.bypass(); w != nil {
+		c.fail(r, fnName(f)+":bound", c.pos(w[len(w)-1].Pos()), "a header is handed out without its entry count having been compared with maxEntries: "+c.witnessStr(w))
+	} else {
+		c.ok(r, fnName(f)+":bound", c.pos(f.Pos()), "every path to a successful return passes the comparison with maxEntries")
+	}
 }
